@@ -13,6 +13,9 @@ import Mathlib.Tactic.Linarith
 import Mathlib.Tactic.Positivity
 import Mathlib.Tactic.Ring
 import Mathlib.Tactic.NormNum
+import Mathlib.Tactic.Push
+import Mathlib.Tactic.FieldSimp
+import Mathlib.Data.Rat.Defs
 namespace Evo.F64
 
 /-- binary64 values (finite) as rationals `m · 2^e`, `|m| < 2⁵³`, `−1074 ≤ e ≤ 971` -/
@@ -148,5 +151,375 @@ theorem absR_eq_abs (x : ℚ) : Evo.absR x = |x| := by
   split
   · rename_i h; rw [abs_of_neg h]
   · rename_i h; rw [abs_of_nonneg (not_lt.mp h)]
+
+
+/-! ### the executable `rne` is a round-to-nearest (and does not overflow near binary64 values) -/
+
+
+theorem pow2_eq (k : ℕ) : pow2 k = 2 ^ k := by unfold pow2; exact Nat.one_shiftLeft k
+
+/-- `rhe n d` is an integer nearest to `n / d` -/
+theorem rhe_near (n d : ℕ) (hd : 0 < d) : |(n : ℚ) / d - (rhe n d : ℚ)| ≤ 1 / 2 := by
+  have hdq : (0 : ℚ) < d := by exact_mod_cast hd
+  have hn : (n : ℚ) = (d : ℚ) * ((n / d : ℕ) : ℚ) + ((n % d : ℕ) : ℚ) := by
+    exact_mod_cast (Nat.div_add_mod n d).symm
+  have hr : ((n % d : ℕ) : ℚ) < d := by exact_mod_cast Nat.mod_lt n hd
+  have hr0 : (0 : ℚ) ≤ ((n % d : ℕ) : ℚ) := by positivity
+  have hdiv : (n : ℚ) / d = ((n / d : ℕ) : ℚ) + ((n % d : ℕ) : ℚ) / d := by
+    rw [hn]; field_simp
+  rw [hdiv, abs_le]
+  unfold rhe
+  simp only
+  split
+  · rename_i h
+    have h' : 2 * ((n % d : ℕ) : ℚ) < d := by exact_mod_cast h
+    have : ((n % d : ℕ) : ℚ) / d < 1 / 2 := by rw [div_lt_iff₀ hdq]; linarith
+    have h0 : 0 ≤ ((n % d : ℕ) : ℚ) / d := by positivity
+    constructor <;> linarith
+  · split
+    · rename_i h1 h
+      have h' : (d : ℚ) < 2 * ((n % d : ℕ) : ℚ) := by exact_mod_cast h
+      have : 1 / 2 < ((n % d : ℕ) : ℚ) / d := by rw [lt_div_iff₀ hdq]; linarith
+      have h1' : ((n % d : ℕ) : ℚ) / d < 1 := by rw [div_lt_one hdq]; exact hr
+      push_cast
+      constructor <;> linarith
+    · rename_i h1 h2
+      have he : 2 * (n % d) = d := by omega
+      have he' : 2 * ((n % d : ℕ) : ℚ) = d := by exact_mod_cast he
+      have : ((n % d : ℕ) : ℚ) / d = 1 / 2 := by rw [div_eq_iff (ne_of_gt hdq)]; linarith
+      split
+      · constructor <;> linarith
+      · push_cast; constructor <;> linarith
+
+
+
+theorem two_ne : (2 : ℚ) ≠ 0 := by norm_num
+
+theorem log2_bounds (p : ℕ) (hp : 0 < p) :
+    (2 : ℚ) ^ ((Nat.log2 p : ℕ) : ℤ) ≤ p ∧ (p : ℚ) < (2 : ℚ) ^ (((Nat.log2 p : ℕ) : ℤ) + 1) := by
+  have h1 : 2 ^ Nat.log2 p ≤ p := Nat.log2_self_le (Nat.pos_iff_ne_zero.mp hp)
+  have h2 : p < 2 ^ (Nat.log2 p + 1) := Nat.lt_log2_self
+  constructor
+  · rw [zpow_natCast]; exact_mod_cast h1
+  · have : ((Nat.log2 p : ℕ) : ℤ) + 1 = ((Nat.log2 p + 1 : ℕ) : ℤ) := by push_cast; ring
+    rw [this, zpow_natCast]; exact_mod_cast h2
+
+theorem ilog2_spec (p q : ℕ) (hp : 0 < p) (hq : 0 < q) :
+    (2 : ℚ) ^ (ilog2 p q) ≤ (p : ℚ) / q ∧ (p : ℚ) / q < (2 : ℚ) ^ (ilog2 p q + 1) := by
+  obtain ⟨hp1, hp2⟩ := log2_bounds p hp
+  obtain ⟨hq1, hq2⟩ := log2_bounds q hq
+  have hpq : (0 : ℚ) < p := by exact_mod_cast hp
+  have hqq : (0 : ℚ) < q := by exact_mod_cast hq
+  set lp : ℤ := ((Nat.log2 p : ℕ) : ℤ) with hlp
+  set lq : ℤ := ((Nat.log2 q : ℕ) : ℤ) with hlq
+  -- crude bounds
+  have hup : (p : ℚ) / q < (2 : ℚ) ^ (lp - lq + 1) := by
+    have e : (2 : ℚ) ^ (lp - lq + 1) = (2 : ℚ) ^ (lp + 1) / (2 : ℚ) ^ lq := by
+      rw [← zpow_sub₀ two_ne]; congr 1; ring
+    rw [e, div_lt_div_iff₀ hqq (two_zpow_pos lq)]
+    calc (p : ℚ) * 2 ^ lq ≤ p * q := by apply mul_le_mul_of_nonneg_left hq1 hpq.le
+      _ < 2 ^ (lp + 1) * q := by apply mul_lt_mul_of_pos_right hp2 hqq
+  have hlo : (2 : ℚ) ^ (lp - lq - 1) < (p : ℚ) / q := by
+    have e : (2 : ℚ) ^ (lp - lq - 1) = (2 : ℚ) ^ lp / (2 : ℚ) ^ (lq + 1) := by
+      rw [← zpow_sub₀ two_ne]; congr 1; ring
+    rw [e, div_lt_div_iff₀ (two_zpow_pos (lq + 1)) hqq]
+    calc (2 : ℚ) ^ lp * q < 2 ^ lp * 2 ^ (lq + 1) := by
+            apply mul_lt_mul_of_pos_left hq2 (two_zpow_pos lp)
+      _ ≤ p * 2 ^ (lq + 1) := by apply mul_le_mul_of_nonneg_right hp1 (two_zpow_pos _).le
+  -- the test decides
+  unfold ilog2
+  simp only
+  rw [← hlp, ← hlq]
+  have key : ∀ ok : Bool, (ok = true ↔ (2 : ℚ) ^ (lp - lq) ≤ (p : ℚ) / q) →
+      (2 : ℚ) ^ (if ok = true then lp - lq else lp - lq - 1) ≤ (p : ℚ) / q ∧
+      (p : ℚ) / q < (2 : ℚ) ^ ((if ok = true then lp - lq else lp - lq - 1) + 1) := by
+    intro ok hok
+    cases ok with
+    | true => simp only [if_true]; exact ⟨hok.mp rfl, hup⟩
+    | false =>
+      simp only [Bool.false_eq_true, if_false]
+      refine ⟨hlo.le, ?_⟩
+      have : lp - lq - 1 + 1 = lp - lq := by ring
+      rw [this]
+      exact lt_of_not_ge fun hge => Bool.false_ne_true (hok.mpr hge)
+  apply key
+  split
+  · rename_i ha
+    obtain ⟨k, hk⟩ := Int.eq_ofNat_of_zero_le ha
+    rw [hk, Int.toNat_natCast, pow2_eq, decide_eq_true_iff, zpow_natCast, le_div_iff₀ hqq]
+    constructor
+    · intro h; have : ((q * 2 ^ k : ℕ) : ℚ) ≤ p := by exact_mod_cast h
+      push_cast at this; linarith
+    · intro h; have : ((q * 2 ^ k : ℕ) : ℚ) ≤ p := by push_cast; linarith
+      exact_mod_cast this
+  · rename_i ha
+    have ha' : 0 ≤ -(lp - lq) := by omega
+    obtain ⟨k, hk⟩ := Int.eq_ofNat_of_zero_le ha'
+    have hk' : lp - lq = -(k : ℤ) := by omega
+    rw [hk, Int.toNat_natCast, pow2_eq, decide_eq_true_iff, hk', zpow_neg, zpow_natCast, le_div_iff₀ hqq]
+    have h2k : (0 : ℚ) < 2 ^ k := by positivity
+    constructor
+    · intro h; have : (q : ℚ) ≤ ((p * 2 ^ k : ℕ) : ℚ) := by exact_mod_cast h
+      push_cast at this
+      rw [inv_mul_le_iff₀ h2k]; linarith
+    · intro h
+      rw [inv_mul_le_iff₀ h2k] at h
+      have : (q : ℚ) ≤ ((p * 2 ^ k : ℕ) : ℚ) := by push_cast; linarith
+      exact_mod_cast this
+
+
+/-- what `rnePos` computes: exponent, mantissa nearest to the scaled value, overflow test -/
+theorem rnePos_spec (p q : ℕ) (hp : 0 < p) (hq : 0 < q) :
+    ∃ m : ℕ, |(p : ℚ) / q / (2 : ℚ) ^ (max (ilog2 p q - 52) (-1074)) - m| ≤ 1 / 2 ∧
+      rnePos p q = if max (ilog2 p q - 52) (-1074) + 53 > 1024 ∨
+          (max (ilog2 p q - 52) (-1074) + 53 = 1024 ∧ m ≥ 2 ^ 53) then none
+        else some ((m : ℚ) * (2 : ℚ) ^ (max (ilog2 p q - 52) (-1074))) := by
+  have hpq : (0 : ℚ) < p := by exact_mod_cast hp
+  have hqq : (0 : ℚ) < q := by exact_mod_cast hq
+  unfold rnePos
+  simp only [Nat.pos_iff_ne_zero.mp hp, if_false]
+  generalize max (ilog2 p q - 52) (-1074) = e
+  by_cases he : e ≥ 0
+  · obtain ⟨k, rfl⟩ := Int.eq_ofNat_of_zero_le he
+    simp only [he, if_true, Int.toNat_natCast, pow2_eq]
+    refine ⟨rhe p (q * 2 ^ k), ?_, ?_⟩
+    · have := rhe_near p (q * 2 ^ k) (by positivity)
+      have e1 : (p : ℚ) / q / (2 : ℚ) ^ ((k : ℕ) : ℤ) = (p : ℚ) / ((q * 2 ^ k : ℕ) : ℚ) := by
+        rw [zpow_natCast]; push_cast; rw [div_div]
+      rw [e1]; exact this
+    · have e2 : ((rhe p (q * 2 ^ k) * 2 ^ k : ℕ) : ℚ) = (rhe p (q * 2 ^ k) : ℚ) * (2 : ℚ) ^ ((k : ℕ) : ℤ) := by
+        rw [zpow_natCast]; push_cast; ring
+      rw [e2]
+  · have he' : 0 ≤ -e := by omega
+    obtain ⟨k, hk⟩ := Int.eq_ofNat_of_zero_le he'
+    have hek : e = -(k : ℤ) := by omega
+    subst hek
+    simp only [he, if_false, neg_neg, Int.toNat_natCast, pow2_eq]
+    refine ⟨rhe (p * 2 ^ k) q, ?_, ?_⟩
+    · have := rhe_near (p * 2 ^ k) q hq
+      have e1 : (p : ℚ) / q / (2 : ℚ) ^ (-(k : ℤ)) = ((p * 2 ^ k : ℕ) : ℚ) / (q : ℚ) := by
+        rw [zpow_neg, zpow_natCast]; push_cast; field_simp
+      rw [e1]; exact this
+    · have e2 : (rhe (p * 2 ^ k) q : ℚ) / ((2 ^ k : ℕ) : ℚ) = (rhe (p * 2 ^ k) q : ℚ) * (2 : ℚ) ^ (-(k : ℤ)) := by
+        rw [zpow_neg, zpow_natCast]; push_cast; rw [div_eq_mul_inv]
+      rw [e2]
+
+/-- the point `m·2^e` with `m` nearest to `y/2^e` is nearest to `y` on the grid `2^e·ℤ` -/
+theorem grid_nearest (y : ℚ) (e : ℤ) (m : ℕ) (h : |y / (2 : ℚ) ^ e - m| ≤ 1 / 2) (k : ℤ) :
+    |y - (m : ℚ) * (2 : ℚ) ^ e| ≤ |y - (k : ℚ) * (2 : ℚ) ^ e| := by
+  have hp := two_zpow_pos e
+  have e1 : ∀ c : ℚ, y - c * (2 : ℚ) ^ e = (y / (2 : ℚ) ^ e - c) * (2 : ℚ) ^ e := by
+    intro c; field_simp
+  rw [e1, e1, abs_mul, abs_mul, abs_of_pos hp]
+  apply mul_le_mul_of_nonneg_right _ hp.le
+  by_cases hk : k = (m : ℤ)
+  · subst hk; simp
+  · have h1 : (1 : ℚ) ≤ |((m : ℤ) : ℚ) - (k : ℚ)| := by
+      have : (1 : ℤ) ≤ |(m : ℤ) - k| := Int.one_le_abs (sub_ne_zero.mpr (Ne.symm hk))
+      exact_mod_cast this
+    have h2 : |((m : ℤ) : ℚ) - (k : ℚ)| ≤ |y / (2 : ℚ) ^ e - m| + |y / (2 : ℚ) ^ e - k| := by
+      have : ((m : ℤ) : ℚ) - (k : ℚ) = -(y / (2 : ℚ) ^ e - m) + (y / (2 : ℚ) ^ e - k) := by
+        push_cast; ring
+      rw [this]
+      calc _ ≤ |-(y / (2 : ℚ) ^ e - m)| + |y / (2 : ℚ) ^ e - k| := abs_add_le _ _
+        _ = _ := by rw [abs_neg]
+    linarith
+
+theorem rnePos_nearest (p q : ℕ) (hp : 0 < p) (hq : 0 < q) (r : ℚ) (h : rnePos p q = some r) :
+    IsNearestF64 ((p : ℚ) / q) r := by
+  obtain ⟨m, hm, hspec⟩ := rnePos_spec p q hp hq
+  obtain ⟨hlo, hhi⟩ := ilog2_spec p q hp hq
+  set y : ℚ := (p : ℚ) / q with hy
+  set lg := ilog2 p q with hlg
+  set e : ℤ := max (lg - 52) (-1074) with he
+  rw [hspec] at h
+  split at h
+  · cases h
+  rename_i hov
+  push Not at hov
+  obtain ⟨hov1, hov2⟩ := hov
+  have hr : r = (m : ℚ) * (2 : ℚ) ^ e := by simpa using h.symm
+  have hpe := two_zpow_pos e
+  have he1 : lg - 52 ≤ e := le_max_left _ _
+  have he2 : -1074 ≤ e := le_max_right _ _
+  -- mantissa bound
+  have ht : y / (2 : ℚ) ^ e < 2 ^ 53 := by
+    rw [div_lt_iff₀ hpe]
+    calc y < (2 : ℚ) ^ (lg + 1) := hhi
+      _ ≤ (2 : ℚ) ^ (53 + e) := zpow_le_zpow_right₀ (by norm_num) (by omega)
+      _ = 2 ^ 53 * (2 : ℚ) ^ e := by rw [zpow_add₀ two_ne]; norm_num
+  have hmle : m ≤ 2 ^ 53 := by
+    have h1 := (abs_le.mp hm).1
+    have : (m : ℚ) < ((2 ^ 53 + 1 : ℕ) : ℚ) := by push_cast; linarith
+    have : m < 2 ^ 53 + 1 := by exact_mod_cast this
+    omega
+  refine ⟨?_, ?_⟩
+  · -- IsF64
+    rw [hr]
+    rcases Nat.lt_or_ge m (2 ^ 53) with hlt | hge
+    · refine ⟨(m : ℤ), e, ?_, he2, by omega, by push_cast; ring⟩
+      rw [abs_of_nonneg (by positivity)]; exact_mod_cast hlt
+    · have hm53 : m = 2 ^ 53 := le_antisymm hmle hge
+      have he971 : e + 1 ≤ 971 := by
+        have := hov2
+        by_contra hcon
+        have : e + 53 = 1024 := by omega
+        exact absurd (hov2 this) (by omega)
+      refine ⟨2 ^ 52, e + 1, by norm_num, by omega, he971, ?_⟩
+      rw [hm53, zpow_add₀ two_ne]; push_cast; ring
+  · intro z hz
+    rw [hr]
+    obtain ⟨m', e', hm', he'1, he'2, rfl⟩ := hz
+    rcases le_or_gt e e' with hle | hlt
+    · obtain ⟨a, ha⟩ := rescale m' e' e hle
+      rw [ha]; exact grid_nearest y e m hm a
+    · -- z is below 2^lg ≤ y, and 2^lg is on the grid
+      have helg : e = lg - 52 := by
+        rcases max_cases (lg - 52) (-1074) with ⟨h1, _⟩ | ⟨h1, _⟩
+        · exact h1
+        · omega
+      have hg := grid_nearest y e m hm (2 ^ 52)
+      have hglg : ((2 ^ 52 : ℤ) : ℚ) * (2 : ℚ) ^ e = (2 : ℚ) ^ lg := by
+        have : lg = 52 + e := by omega
+        rw [this, zpow_add₀ two_ne]; norm_num
+      rw [hglg] at hg
+      have hzlt : (m' : ℚ) * (2 : ℚ) ^ e' < (2 : ℚ) ^ lg := by
+        have hm'q : |(m' : ℚ)| < 2 ^ 53 := by exact_mod_cast hm'
+        have h1 : (m' : ℚ) ≤ |(m' : ℚ)| := le_abs_self _
+        have hpe' := two_zpow_pos e'
+        calc (m' : ℚ) * (2 : ℚ) ^ e' < 2 ^ 53 * (2 : ℚ) ^ e' := by
+              apply mul_lt_mul_of_pos_right (lt_of_le_of_lt h1 hm'q) hpe'
+          _ = (2 : ℚ) ^ (53 + e') := by rw [zpow_add₀ two_ne]; norm_num
+          _ ≤ (2 : ℚ) ^ lg := zpow_le_zpow_right₀ (by norm_num) (by omega)
+      have h3 : |y - (2 : ℚ) ^ lg| = y - (2 : ℚ) ^ lg := abs_of_nonneg (by linarith)
+      have h4 : |y - (m' : ℚ) * (2 : ℚ) ^ e'| = y - (m' : ℚ) * (2 : ℚ) ^ e' := abs_of_nonneg (by linarith)
+      rw [h4]; rw [h3] at hg; linarith
+
+
+theorem isNearest_neg {y r : ℚ} (h : IsNearestF64 y r) : IsNearestF64 (-y) (-r) := by
+  refine ⟨isF64_neg h.1, fun z hz => ?_⟩
+  have := h.2 (-z) (isF64_neg hz)
+  have e1 : -y - -r = -(y - r) := by ring
+  have e2 : -y - z = -(y - -z) := by ring
+  rw [e1, e2, abs_neg, abs_neg]; exact this
+
+theorem abs_eq_natAbs_div (y : ℚ) : |y| = (y.num.natAbs : ℚ) / (y.den : ℚ) := by
+  have hd : (0 : ℚ) < y.den := by exact_mod_cast y.den_pos
+  conv_lhs => rw [← Rat.num_div_den y]
+  rw [abs_div, abs_of_pos hd]
+  congr 1
+  rw [← Int.cast_abs, Int.abs_eq_natAbs]; simp
+
+theorem rnePos_zero (q : ℕ) : rnePos 0 q = some 0 := by unfold rnePos; simp
+
+/-- the executable rounding returns a nearest binary64 value -/
+theorem rne_nearest (y r : ℚ) (h : rne y = some r) : IsNearestF64 y r := by
+  unfold rne at h
+  have habs := abs_eq_natAbs_div y
+  have hq : 0 < y.den := y.den_pos
+  by_cases hy : y < 0
+  · simp only [hy, if_true, Option.map_eq_some_iff] at h
+    obtain ⟨r', hr', rfl⟩ := h
+    have hp : 0 < y.num.natAbs := by
+      have : y.num ≠ 0 := by
+        intro h0; rw [Rat.num_eq_zero] at h0; rw [h0] at hy; exact lt_irrefl _ hy
+      exact Int.natAbs_pos.mpr this
+    have := rnePos_nearest _ _ hp hq r' hr'
+    rw [← habs, abs_of_neg hy] at this
+    have := isNearest_neg this
+    rwa [neg_neg] at this
+  · simp only [hy, if_false] at h
+    have hy' : 0 ≤ y := not_lt.mp hy
+    rcases Nat.eq_zero_or_pos y.num.natAbs with h0 | hp
+    · rw [h0, rnePos_zero] at h
+      have hy0 : y = 0 := by
+        rw [← Rat.num_eq_zero]; exact Int.natAbs_eq_zero.mp h0
+      cases h
+      subst hy0
+      exact ⟨isF64_zero, fun z _ => by simp⟩
+    · have := rnePos_nearest _ _ hp hq r h
+      rwa [← habs, abs_of_nonneg hy'] at this
+
+
+/-- largest magnitude a rational close to a binary64 value can have -/
+def closeBound : ℚ := (2 ^ 53 - 1) * (2 : ℚ) ^ (971 : ℤ) * (1 + 1 / 2 ^ 55)
+
+theorem abs_le_closeBound {x y : ℚ} (hx : IsF64 x) (hc : Close x y) : |y| ≤ closeBound := by
+  obtain ⟨m, e, hm, -, he, rfl⟩ := hx
+  unfold Close at hc
+  have hpe := two_zpow_pos e
+  have hmq : |(m : ℚ)| ≤ 2 ^ 53 - 1 := by
+    have : |m| ≤ 2 ^ 53 - 1 := by omega
+    exact_mod_cast this
+  have hxabs : |(m : ℚ) * (2 : ℚ) ^ e| ≤ (2 ^ 53 - 1) * (2 : ℚ) ^ (971 : ℤ) := by
+    rw [abs_mul, abs_of_pos hpe]
+    apply mul_le_mul hmq (zpow_le_zpow_right₀ (by norm_num) he) hpe.le (by norm_num)
+  have htri : |y| ≤ |(m : ℚ) * (2 : ℚ) ^ e| + |y - (m : ℚ) * (2 : ℚ) ^ e| := by
+    have : y = (m : ℚ) * (2 : ℚ) ^ e + (y - (m : ℚ) * (2 : ℚ) ^ e) := by ring
+    calc |y| = |(m : ℚ) * (2 : ℚ) ^ e + (y - (m : ℚ) * (2 : ℚ) ^ e)| := by rw [← this]
+      _ ≤ _ := abs_add_le _ _
+  unfold closeBound
+  have h0 : 0 ≤ |(m : ℚ) * (2 : ℚ) ^ e| := abs_nonneg _
+  calc |y| ≤ |(m : ℚ) * (2 : ℚ) ^ e| * (1 + 1 / 2 ^ 55) := by
+        have : |(m : ℚ) * (2 : ℚ) ^ e| / 2 ^ 55 = |(m : ℚ) * (2 : ℚ) ^ e| * (1 / 2 ^ 55) := by ring
+        nlinarith
+    _ ≤ _ := by apply mul_le_mul_of_nonneg_right hxabs (by norm_num)
+
+theorem rnePos_isSome (p q : ℕ) (hp : 0 < p) (hq : 0 < q) (hb : (p : ℚ) / q ≤ closeBound) :
+    (rnePos p q).isSome = true := by
+  obtain ⟨m, hm, hspec⟩ := rnePos_spec p q hp hq
+  obtain ⟨hlo, -⟩ := ilog2_spec p q hp hq
+  set lg := ilog2 p q
+  have h1024 : closeBound < (2 : ℚ) ^ (1024 : ℤ) := by
+    unfold closeBound
+    have : (2 : ℚ) ^ (1024 : ℤ) = 2 ^ 53 * (2 : ℚ) ^ (971 : ℤ) := by
+      rw [show (1024 : ℤ) = 53 + 971 by norm_num, zpow_add₀ two_ne]; norm_num
+    rw [this]
+    have hp971 := two_zpow_pos 971
+    have c : ((2 : ℚ) ^ 53 - 1) * (1 + 1 / 2 ^ 55) < 2 ^ 53 := by norm_num
+    calc ((2 : ℚ) ^ 53 - 1) * (2 : ℚ) ^ (971 : ℤ) * (1 + 1 / 2 ^ 55)
+        = (((2 : ℚ) ^ 53 - 1) * (1 + 1 / 2 ^ 55)) * (2 : ℚ) ^ (971 : ℤ) := by ring
+      _ < 2 ^ 53 * (2 : ℚ) ^ (971 : ℤ) := mul_lt_mul_of_pos_right c hp971
+  have hlg : lg < 1024 := by
+    have : (2 : ℚ) ^ lg < (2 : ℚ) ^ (1024 : ℤ) := lt_of_le_of_lt hlo (lt_of_le_of_lt hb h1024)
+    exact (zpow_lt_zpow_iff_right₀ (by norm_num : (1 : ℚ) < 2)).mp this
+  have he971 : max (lg - 52) (-1074) ≤ 971 := max_le (by omega) (by norm_num)
+  rw [hspec]
+  split
+  · rename_i hov
+    exfalso
+    rcases hov with hov | ⟨hov, hm53⟩
+    · omega
+    · have he : max (lg - 52) (-1074) = 971 := by omega
+      rw [he] at hm
+      have hp971 := two_zpow_pos 971
+      have ht : (p : ℚ) / q / (2 : ℚ) ^ (971 : ℤ) ≤ (2 ^ 53 - 1) * (1 + 1 / 2 ^ 55) := by
+        rw [div_le_iff₀ hp971]
+        calc (p : ℚ) / q ≤ closeBound := hb
+          _ = _ := by unfold closeBound; ring
+      have hmq : (9007199254740992 : ℚ) ≤ (m : ℚ) := by
+        have h' : 9007199254740992 ≤ m := by norm_num at hm53; exact hm53
+        exact_mod_cast h'
+      have := (abs_le.mp hm).1
+      have c2 : ((2 : ℚ) ^ 53 - 1) * (1 + 1 / 2 ^ 55) < 9007199254740992 - 1 / 2 := by norm_num
+      linarith
+  · rfl
+
+/-- no overflow near binary64 values -/
+theorem rne_isSome_of_close (x y : ℚ) (hx : IsF64 x) (hc : Close x y) : (rne y).isSome = true := by
+  have hb := abs_le_closeBound hx hc
+  rw [abs_eq_natAbs_div] at hb
+  have hq : 0 < y.den := y.den_pos
+  have key : (rnePos y.num.natAbs y.den).isSome = true := by
+    rcases Nat.eq_zero_or_pos y.num.natAbs with h0 | hp
+    · rw [h0, rnePos_zero]; rfl
+    · exact rnePos_isSome _ _ hp hq hb
+  unfold rne
+  split
+  · rw [Option.isSome_map]; exact key
+  · exact key
+
+
+theorem rne_zero : rne 0 = some 0 := by decide +kernel
 
 end Evo.F64
